@@ -320,7 +320,7 @@ Proof.
     + apply shape_none_r in Hk. rewrite Hk.
       destruct (insert_kv true (k2 :: p2) v []) as [c1| |] eqn:E1; cbn [rbind] in H; try discriminate. injection H as <-.
       destruct (IH v [] [] c1 Same_nil Wf_nil Wf_nil E1) as [c1' [E1' [HS1 [W1e W1s]]]].
-      rewrite E1'. cbn [rbind]. eexists. split; [reflexivity|]. split; [|split].
+      assert (Hc1 : c1' = c1) by congruence. subst c1'. cbn [rbind]. eexists. split; [reflexivity|]. split; [|split].
       * apply Same_spush; [exact HS|exact Hk|exact Es|]. cbn [shape]. split; [reflexivity|exact HS1].
       * apply Wf_spush; [exact We|exact Hk|exact W1e].
       * apply Wf_spush; [exact Ws|exact Es|exact W1s].
@@ -364,9 +364,16 @@ Proof.
 Qed.
 
 (* the one difference: in place (eval) against move-to-end (Spec/Defs.v) *)
-Lemma def_table_rel : forall k, op_rel (def_table_here k) (def_table k).
+Definition def_table_here' (k : bytes) (t : tree) : res tree :=
+  match sget t k with
+  | None => ROk (spush t k (NTab KHeader []))
+  | Some (NTab KSuper c) => ROk (sset t k (NTab KHeader c))
+  | Some _ => RInvalid
+  end.
+
+Lemma def_table_rel : forall k, op_rel (def_table_here' k) (def_table k).
 Proof.
-  intros k ce cs cs' HS We Ws H. unfold def_table, def_table_here in *. pose proof (Same_get ce cs k HS) as Hk.
+  intros k ce cs cs' HS We Ws H. unfold def_table, def_table_here' in *. pose proof (Same_get ce cs k HS) as Hk.
   destruct (sget cs k) as [[y|[| |] c|es]|] eqn:Es; try discriminate; injection H as <-.
   - destruct (sget ce k) as [[x|kd' c'|es']|] eqn:Ee; cbn [shape] in Hk; try contradiction. destruct Hk as [-> Hc].
     eexists. split; [reflexivity|].
@@ -394,6 +401,7 @@ Proof.
   intros te ts cur [p|p|p v] ts' cur' HS We Ws H; cbn [spec_step ref_step] in *.
   - destruct (unsnoc p) as [[pre k]|]; [|discriminate].
     destruct (at_path pre (def_table k) ts) as [t1| |] eqn:E; cbn [rbind] in H; try discriminate. injection H as <- <-.
+    change (def_table_here k) with (def_table_here' mval k).
     destruct (at_path_rel mval pre _ _ (def_table_rel mval k) te ts t1 HS We Ws E) as [te' [E' [HS' [We' Ws']]]].
     rewrite E'. cbn [rbind]. eauto.
   - destruct (unsnoc p) as [[pre k]|]; [|discriminate].
@@ -423,11 +431,12 @@ Qed.
 (* every document the claims specification calls valid is valid for `eval`, and `eval`'s table has the same
    content under every key path as the specification's tree (only the order of keys may differ) *)
 Theorem eval_same_as_spec : forall l tr, spec_eval l = Some tr ->
-  exists t, ref_fold sstate0 l = Some (t, snd (match ref_fold sstate0 l with Some s => s | None => sstate0 end))
-            /\ eval l = Some (MTab (erase_tree t)) /\ Same mval t tr.
+  exists t, eval l = Some (MTab (erase_tree t)) /\ Same mval t tr.
 Proof.
   intros l tr H. unfold spec_eval in H. destruct (stmts_meaning l) as [ms|] eqn:Em; [|discriminate].
   unfold spec_run, run in H. destruct (spec_fold true sstate0 ms) as [[ts' cur']| |] eqn:Ef; try discriminate. injection H as <-.
   destruct (fold_rel l ms [] [] [] ts' cur' Em (Same_nil mval) (Wf_nil mval) (Wf_nil mval) Ef) as [te' [Er HS]].
-  exists te'. unfold eval. unfold sstate0 in *. rewrite Er. cbn [snd]. split; [reflexivity|]. split; [reflexivity|exact HS].
+  exists te'. unfold eval. change sstate0 with (([] : stree mval), ([] : list bytes)). rewrite Er. split; [reflexivity|exact HS].
 Qed.
+
+(* with the main theorem: the macro's table has the same content as the specification's tree *)
